@@ -1,9 +1,10 @@
 //! vharness: runs the implementation (/repo/ddnnife, feature `verif`) on generated cases and
 //! writes case blocks that the OCaml driver (extracted Coq model + spec oracles) judges.
-mod c01;
 mod common;
 mod gen;
 mod rng;
+
+include!(concat!(env!("OUT_DIR"), "/mods.rs"));
 
 use common::Ctx;
 use std::io::Write;
@@ -32,9 +33,9 @@ fn main() {
         Some(p) => Box::new(std::io::BufWriter::new(std::fs::File::create(p).unwrap())),
         None => Box::new(std::io::BufWriter::new(std::io::stdout())),
     };
-    match kind.as_str() {
-        "c01" => c01::run(&ctx, &mut out),
-        other => { eprintln!("unknown kind {}", other); std::process::exit(2); }
+    if !dispatch(kind.as_str(), &ctx, &mut out) {
+        eprintln!("unknown kind {}", kind);
+        std::process::exit(2);
     }
     out.flush().unwrap();
 }
